@@ -402,7 +402,8 @@ func ggStruct(p *packages.Package, name string) *types.Struct {
 func grpcGunExtra(t *tr) string {
 	var b strings.Builder
 	many := ggLoadMany("github.com/yandex/pandora/components/providers/grpc", "github.com/yandex/pandora/components/guns/grpc", "github.com/yandex/pandora/components/guns/grpc/scenario",
-		"github.com/yandex/pandora/components/providers/grpc/grpcjson", "github.com/yandex/pandora/examples/grpc/server")
+		"github.com/yandex/pandora/components/providers/grpc/grpcjson", "github.com/yandex/pandora/examples/grpc/server",
+		"github.com/yandex/pandora/components/providers/scenario/grpc", "github.com/yandex/pandora/components/providers/scenario/grpc/postprocessor")
 	ap := many["github.com/yandex/pandora/components/providers/grpc"]
 	gp := many["github.com/yandex/pandora/components/guns/grpc"]
 	sp := many["github.com/yandex/pandora/components/guns/grpc/scenario"]
@@ -615,6 +616,8 @@ func grpcGunExtra(t *tr) string {
 
 	// ---- endpoints, scenario gun's configuration hand-down, templater loop (area_grpcgun_net.go)
 	b.WriteString(grpcgunNetExtra(t, gp, sp))
+	b.WriteString(grpcgunFeedExtra(t, gp, sp, jp, many["github.com/yandex/pandora/components/providers/scenario/grpc"],
+		many["github.com/yandex/pandora/components/providers/scenario/grpc/postprocessor"]))
 
 	// ---- config tags
 	if st := ggStruct(gp, "GunConfig"); st != nil {
